@@ -130,6 +130,20 @@ def answer (line : String) : String :=
       let p := BinomialProblem.timesMonomial a b c
       s!"ok={p.ok} like=false " ++ " ".intercalate ("toks" :: p.toks.map Tok.toWire)
     | _, _, _ => "bad-op"
+  | "gen" :: name :: rest =>
+    -- gen <generator> <params…> | <draws…>
+    let params := (rest.takeWhile (· ≠ "|")).filterMap String.toNat?
+    let draws := ((rest.dropWhile (· ≠ "|")).drop 1).filterMap String.toNat?
+    let res : Option (FlatProblem × Nat) :=
+      match name, params with
+      | "combine", [a, b, e, p] => Gen.combineTermsInPlace a b (e == 1) (p == 1) draws
+      | "haystack", [a, b, c, e, p] => Gen.commuteHaystack a b c (e == 1) (p == 1) draws
+      | "blockers1", [n, pp] => Gen.moveAroundBlockersOne n (pp : Rat) draws
+      | "blockers2", [n, pp] => Gen.moveAroundBlockersTwo n (pp : Rat) draws
+      | _, _ => none
+    match res with
+    | none => "none"
+    | some (p, cx) => s!"cx={cx} ok={p.ok} like={p.promisesLike} " ++ " ".intercalate ("toks" :: p.toks.map Tok.toWire)
   | "cloneheap" :: rest => withShape rest fun t =>
       let base := t.ids.foldl max 0 + 1
       match t.rootId with
